@@ -10,4 +10,6 @@ import SparseV.Props.C03
 #print axioms SparseV.C03.rowReduce_min_get
 #print axioms SparseV.C03.reduceCore_none
 #print axioms SparseV.C03.reduce_add_get
+#print axioms SparseV.C03.reduce_max_get
+#print axioms SparseV.C03.reduce_min_get
 #print axioms SparseV.C03.reduce_src_spec
